@@ -7,6 +7,7 @@ import (
 	"io"
 	"path/filepath"
 	"sort"
+	"time"
 
 	"github.com/PowerDNS/lightningstream/snapshot"
 	"github.com/PowerDNS/lightningstream/syncer"
@@ -139,6 +140,9 @@ func cmdC20(args []string) error {
 			return err
 		}
 		n++
+	}
+	if err := dupsortWithoutTransform(R); err != nil {
+		return err
 	}
 	R.Counters["mirror_cycles"] = n
 	R.Traces = n
@@ -456,4 +460,48 @@ func cmdConvergeKinds(args []string) error {
 		w.Close()
 	}
 	return Emit(R)
+}
+
+// dupsortWithoutTransform: a snapshot DBI that carries the MDB_DUPSORT flag but does not state the dupsort-hack
+// transform is inconsistent ("snapshots state the transform so that receivers without it refuse them"): a receiver
+// with the hack enabled must refuse it instead of decoding plain keys as if they were hack-encoded.
+func dupsortWithoutTransform(R *Result) error {
+	sig := map[string]interface{}{"prop": "C20", "class": "flag-without-transform"}
+	w, err := NewWorld(false, nil, Concs()[0], KeyConcs()[0], R)
+	if err != nil {
+		return err
+	}
+	defer w.Close()
+	w.Bucket = memory.New()
+	if err := w.AddInst(1, false); err != nil {
+		return err
+	}
+	in := w.Insts[1]
+	c := w.config(in.Name)
+	lc := c.LMDBs["default"]
+	lc.DupSortHack = true
+	c.LMDBs["default"] = lc
+	s, err := syncer.New("default", in.Env, w.Bucket, c, lc, syncer.Options{})
+	if err != nil {
+		return err
+	}
+	d := snapshot.NewDBISize(256)
+	d.SetName("data")
+	d.SetFlags(uint64(lmdb.DupSort)) // flag set, transform not stated
+	d.Append(snapshot.KV{Key: []byte("ab\x00\x00\x00\x00zz\x02"), Value: []byte("payload"), TimestampNano: uint64(time.Now().UnixNano())})
+	d.Append(snapshot.KV{Key: []byte("plain-key"), Value: []byte("v"), TimestampNano: uint64(time.Now().UnixNano())})
+	snap := &snapshot.Snapshot{FormatVersion: snapshot.CurrentFormatVersion, CompatVersion: snapshot.WriteCompatFormatVersion}
+	snap.Meta.DatabaseName = "default"
+	snap.Meta.InstanceID = "remote"
+	snap.Databases = append(snap.Databases, d)
+	ni := snapshot.NameInfo{Kind: snapshot.KindSnapshot, Extension: snapshot.DefaultExtension, SyncerName: "default", InstanceID: "remote",
+		GenerationID: "GX", Timestamp: time.Now()}
+	ni.FullName = ni.BuildName()
+	_, _, lerr := s.LoadOnce(context.Background(), in.Env, "remote", snapshot.Update{Snapshot: snap, NameInfo: ni}, 0)
+	R.Add(1, 1, 0)
+	if lerr == nil {
+		pairs, _, _ := readPairs(in.Env, "data")
+		R.Bad("flag-without-transform", sig, "a snapshot DBI with the MDB_DUPSORT flag but without the dupsort_hack_v1 transform was merged by a receiver with the hack enabled; application pairs now %v", pairs.list())
+	}
+	return nil
 }
